@@ -104,6 +104,9 @@ class Ctx:
             if san == "tsan":
                 cmd += ["-Zbuild-std"]
             env["RUSTFLAGS"] = rustflags
+            if cov and san is None:
+                # instrumented build scripts / proc macros must not drop default_*.profraw files into /repo
+                env["LLVM_PROFILE_FILE"] = os.path.join(self.work, "cov-build-%p.profraw")
             t = time.time()
             p = subprocess.run(cmd, env=env, stdout=subprocess.PIPE, stderr=subprocess.STDOUT, text=True)
             self.build_log.append({"config": config, "san": san, "ok": p.returncode == 0, "secs": round(time.time() - t, 1)})
